@@ -38,7 +38,7 @@ def _gen(args):
         if a["op"] == "addSlide":
             a["l"] = L.GEN_LAYOUT
         if a["op"] == "setGeom":
-            a.update({"x": 123456, "y": 234567, "cx": 3456789, "cy": 456789})
+            a.update({"x": 0, "y": 0, "cx": 3456789, "cy": 456789} if (a["k"] + a["j"]) % 2 == 0 else {"x": 123456, "y": 0, "cx": 3456789, "cy": 456789})
         h.append(a)
     return L.run(tid, L.gen_deck(sc["pop"]), h)
 
